@@ -67,7 +67,7 @@ def run(ctx):
         # exit status 0 exactly when the run succeeded, non-zero with a message on stderr otherwise
         if rc != 0 and not err.strip(): V('a failing run leaves a message on standard error', 'exit %d, empty stderr' % rc)
         if mode == 'pipe':
-            eo = [l for l in out.split(b'\n') if l.startswith(b'error:')]; ee = [l for l in err.split(b'\n') if l.startswith(b'error:')]
+            eo = lib.ERRLINE.findall(out); ee = [l for l in err.split(b'\n') if l.startswith(b'error:')]
             if cfg['on_error'] == 'stderr':
                 if eo: V('--on-error=stderr: diagnostics only on standard error', out.decode('utf8', 'replace')[:300])
                 if rc == 0 and cfg['take'] is None and len(ee) < regions: V('--on-error=stderr: every malformed region is reported on standard error', '%d error lines for %d regions' % (len(ee), regions))
